@@ -152,7 +152,8 @@ def gen_cases(ctx):
             cases.append(c)
         except Exception:
             pass
-    n_cases = 700 if ctx.quick() else 12000
+    cases += exhaustive_small(ctx.quick())
+    n_cases = 600 if ctx.quick() else 12000
     for i in range(n_cases):
         klass = rng.choice(LOGIT_CLASSES)
         u = rng.random()
@@ -172,6 +173,29 @@ def gen_cases(ctx):
         seed = rng.choice([0, 1, 42, rng.randrange(1 << 31), rng.randrange(1 << 50), -7])
         cases.append({"op": "seed", "stream": stream, "temp": t, "topk": k, "topp": p, "minp": mp, "seed": seed, "klass": "seed"})
     return cases
+
+
+def exhaustive_small(quick):
+    """every vector of length <= 2 (thorough: <= 3) over the special values {-Inf, -0, 1, 2, 3e38, +Inf}, crossed with a
+    small grid of parameters; draws 0, 1/2, 1-2^-24"""
+    import itertools
+    vals = [NINF, 1 << 31, f2b(1.0), f2b(2.0), f2b(3e38), PINF]
+    out = []
+    temps = [0.0, 0.5, 1.0]
+    ks = [0, 1, 2]
+    ps = [0.5, 1.0]
+    mps = [0.0, 0.5] if not quick else [0.5]
+    if quick:
+        ks = [0, 1]
+    for L in range(1, 3 if quick else 4):
+        for v in itertools.product(vals, repeat=L):
+            for t in temps:
+                for k in ks:
+                    for p in ps:
+                        for mp in mps:
+                            out.append({"op": "sample", "logits": list(v), "temp": f2b(t), "topk": k, "topp": f2b(p), "minp": f2b(mp),
+                                        "draws": [0, 1 << 23, (1 << 24) - 1], "klass": "exhaustive-small"})
+    return out
 
 
 def boundary_cases(cases, obs, rng, limit):
@@ -562,6 +586,11 @@ def evaluate(ctx, binp, cases, tag):
                 ctx.violation(sig_, what_ + "  (found by searching around a model/implementation disagreement at %s)" % sorted(set(failed)),
                               {"case": m_, "impl": o_, "disagreeing_case": cases[ci]})
         ctx.mismatch("Sample/Corr: model and implementation differ at %s" % sorted(set(failed)), cases[ci], obs[ci], shown)
+    draws_seen = [r for o in obs if isinstance(o, dict) for r in (o.get("rs") or [])]
+    bad_draws = [r for r in draws_seen if not (0.0 <= b2f(r) < 1.0)]
+    ctx.obligation("hypothesis draw_ok: the %d draws rng.Float32() delivered are numbers in [0,1) (%s)" % (len(draws_seen), tag), not bad_draws, str(bad_draws[:5]))
+    if bad_draws:
+        ctx.proof_failures.append({"obligation": "hypothesis draw_ok fails for rng.Float32()", "detail": bad_draws[:10]})
     n, badexp = exp_hypotheses(tables)
     ctx.extra["exp_table_entries_" + tag] = n
     ctx.obligation("exp oracle hypotheses (exp(-Inf)=+0, exp(0)=1, 0<=exp(x)<=1 for x<=0, monotone) hold on the %d table entries (%s)" % (n, tag), not badexp, str(badexp[:5]))
@@ -608,9 +637,11 @@ def run(ctx):
                    "exp is an oracle: the model looks float32(math.Exp(float64(x))) up in a table written by the harness; hypotheses on it are tested on every table entry",
                    "Go harness harness/cmd/c18 and overlay export harness/overlay/sample/c18.go (add-only, build tag verif; scripted rand.Source)",
                    "python generator and monitor (props/c18.py); math/rand/v2, container/heap, slices.SortFunc are not modelled (topK is compared by value)"]
-    ctx.assumptions = ["logits contain no NaN and temperature/top-p/min-p are numbers (not NaN, not infinite) in the theorems and in the monitor's token clauses; with NaN only 'no panic, id in range' is demanded",
-                       "grammar == nil (the grammar path calls the same sample() on masked logits)",
-                       "topK tie order is not predicted (pdqsort / heap): compared by value and membership"]
+    ctx.assumptions = ["logits contain no NaN and temperature/top-p/min-p are numbers (not NaN; temperature not infinite) in the theorems and in the monitor's token clauses; with NaN only 'no panic, id in range' is demanded (stages are still compared exactly)",
+                       "exp oracle: values in [0,1] on non-positive arguments, exp(+-0)=1, exp(-Inf)=+0, exp(NaN)=NaN, monotone on non-positive arguments - tested on every table entry and on the probe, not proved",
+                       "grammar == nil (the grammar path calls the same sample() on masked logits; it needs a llama.cpp vocabulary)",
+                       "topK tie order is not predicted (pdqsort / heap): compared by value and membership; the theorems hold for every legal tie order",
+                       "the model describes /repo with fixes/C18-softmax-overflow.patch applied"]
     ctx.proof_stage(["Sample"], "Sample/Properties_C18.v", extra_targets=["Sample/Corr.v"])
     binp = ctx.go_build("c18")
     if not binp:
@@ -668,9 +699,19 @@ MANIFEST = {
     "engine": "coq-model+go-differential",
     "level_claimed": {
         "category": "proof",
-        "text": "Coq theorems over an executable model of sample/samplers.go + sample/transforms.go with exact binary32 arithmetic (exp an oracle): see notes/C18.md",
+        "text": "Coq theorems over an executable model of sample/samplers.go + sample/transforms.go with exact IEEE binary32 arithmetic (Coq SpecFloat at precision 24; "
+                "rounding facts from Flocq), for every vector of float32 numbers (finite, +-0, subnormal, +-Inf; no NaN), every integer top-k, every number "
+                "temperature (not infinite) / top-p / min-p, every draw in [0,1] and every legal tie order of topK: Sample returns a token inside the vocabulary "
+                "whose logit is not -Inf whenever some logit is not -Inf; temperature <= 0 returns a highest-logit token; otherwise the token lies in the top-k "
+                "list, the top-p prefix and the min-p set as the code computes them (and these are the textbook sets: probabilities descending, cuts exact); "
+                "no index is ever out of range; all -Inf gives the NaN error; a stream of calls is a function of parameters, logits and the generator's draws. "
+                "exp is an oracle (hypotheses tested against math.Exp on every run).  The hand-written model is tied to the code stage by stage (NewSampler, greedy, "
+                "topK, temperature, softmax, topP, minP, cumulative sum + binary search, whole Sample, seeded streams) by a differential run evaluated inside Coq; "
+                "the property is also monitored directly on Sample's answers.  The model describes the code with fixes/C18-softmax-overflow.patch.",
         "design_ref": "DESIGN.md section 5, C18",
     },
-    "level_note": "see notes/C18.md",
+    "level_note": "Trusted: Coq kernel/vm_compute, SpecFloat/Flocq (standard-library real-number axioms), Go float32 = IEEE binary32 on amd64; the model-to-code tie is "
+                  "differential testing (generator-bounded); exp oracle hypotheses are tested, not proved; NaN logits, NaN/infinite parameters and the grammar path are "
+                  "outside the theorems (NaN inputs are still run: stages compared exactly, monitor demands no panic / id in range).",
     "technique": "Coq proof over an executable binary32 model + stage-wise model/implementation differential check + property monitor",
 }
